@@ -114,7 +114,7 @@ class CaseLog:
             self.samples.append(rec)
 
     def twin(self, name=""):
-        rs, _m = S.reachable()
+        rs, _m = S.reachable(timeout_ms=90000)
         self.twins.append((name, rs))
         if rs != "sat":
             self.inconclusive.append("vacuity twin '%s' of case %s is %s (assumptions contradictory or undecided)" % (name, self.case, rs))
